@@ -491,7 +491,12 @@ public:
         return size_type(m_stack.size());
     }
 
-    enum { eDefaultStackSize = 100 };
+    enum { eDefaultStackSize = 100,
+           // The deepest nesting of evaluations of top-level variables and
+           // params (each one started by a reference in the definition of
+           // the previous one) that is executed; anything deeper is reported
+           // as infinite recursion instead of exhausting the stack.
+           eMaximumVariableNestingDepth = 1000 };
 
 #if defined(APACHE_XALAN_C_VERIF)
     // verification hook: sizes of the internal stacks
